@@ -520,7 +520,10 @@ def check_constructor_config(rep, repo):
     on = [e for e in st if e.value == ("const", True) and under(e, given)]
     off = [e for e in st if e.value == ("const", False) and under(e, absent)]
     direct = [e for e in st if not e.guards and e.value in (("call", ("builtin", "bool"), (pf,), ()),)]
-    ok = (len(on) == 1 and len(off) == 1 and len(st) == 2) or (len(direct) == 1 and len(st) == 1)
+    # (default first: `flag = False`, unconditionally, then `flag = True` under the test - the same configuration)
+    off0 = [e for e in st if e.value == ("const", False) and not e.guards and not e.loops]
+    ok = (len(on) == 1 and len(off) == 1 and len(st) == 2) or (len(direct) == 1 and len(st) == 1) or (
+        len(on) == 1 and len(off0) == 1 and len(st) == 2 and off0[0].seq < on[0].seq)
     if len(direct) == 1 and len(st) == 1:
         # the flag itself (just set to bool(file)) may be what later statements test
         given.append(flag)
